@@ -20,6 +20,10 @@ INT_SPECIAL = {
 }
 RANGE = {'Int32': (-2**31, 2**31 - 1), 'UInt32': (0, 2**32 - 1), 'Int64': (-2**63, 2**63 - 1), 'UInt64': (0, 2**64 - 1)}
 PFX = {'Int32': 'i32', 'UInt32': 'u32', 'Int64': 'i64', 'UInt64': 'u64'}
+# how the harness puts every Variant of a request together (harness/drv_C14.cpp via_route): same request, other entry points
+VROUTES = ['direct', 'cstr', 'charptr', 'literal', 'setlive', 'setc', 'retype', 'copy', 'assign', 'move', 'swap', 'value']
+LITERALS = [b'', b'a', b'abc', b'hello world', b'm V', '\u00e4\u00f6\u20ac'.encode('utf-8')]      # the table of string literals of the harness
+GET_TYPES = ['Bool', 'Int32', 'UInt32', 'Int64', 'UInt64', 'Double', 'String', 'CStr', 'None', 'NoneT']
 UTF8 = ['äöü', '€', '\U0001F600', '日本語', 'µV', 'Ω']
 
 
@@ -134,22 +138,40 @@ class C14(Prop):
         r = g.r
         lines = []
         how = r.choice(['t', 'v', 'vs', 'vs'])
+        def rt():
+            x = r.choice(VROUTES)
+            return '' if x == 'direct' and r.random() < 0.5 else ':' + x
+
+        def vec(n=None):
+            # with the literal route most strings come from the harness's table of literals
+            route = rt()
+            v = g.vec(t, n)
+            if route == ':literal' and t == 'String':
+                v = [v[0]] + [hexs(r.choice(LITERALS)) if r.random() < 0.8 else x for x in v[1:]]
+            return route, v
         if how == 't':
             lines.append('new_t ' + t)
         elif how == 'v':
-            lines.append('new_v ' + g.value(t))
+            route, v = vec(1)
+            lines.append('new_v%s %s' % (route, v[1]))
         else:
             n = r.choice([1, 1, 2, 8, 9, 64, r.randint(1, 64)])
-            lines.append('new_vs ' + ' '.join(g.vec(t, n)))
-        lines.append('obs')
+            route, v = vec(n)
+            lines.append('new_vs%s %s' % (route, ' '.join(v)))
+        lines.append(r.choice(['obs', 'obs:alt']))
         ro = False
         for _ in range(nsteps):
             k = r.choice(['set', 'set', 'set', 'set', 'clear', 'clear_none', 'unit', 'unit', 'unit_none', 'unc', 'unc_none',
-                          'def', 'def_none', 'reopen', 'reopen', 'count'])
+                          'def', 'def_none', 'reopen', 'reopen', 'count', 'cmp', 'pstr'])
             if ro and k != 'reopen' and r.random() < 0.7:
                 k = 'obs'          # mostly read while read-only
             if k == 'set':
-                lines.append('set ' + ' '.join(g.vec(t)))
+                route, v = vec()
+                lines.append('set%s %s' % (route, ' '.join(v)))
+            elif k == 'cmp':
+                # Property::compare with a property called otherwise (same section) or the same (another section: ids decide)
+                lines.append('cmp ' + hexs(r.choice([b'p', b'q', b'o', b'pa', b'P', b'', 'ä'.encode('utf-8'), b'p ', b'a b', b'zz9',
+                                                     bytes(r.choice(b'nopqrs') for _ in range(r.randint(1, 3)))]) or b'x'))
             elif k == 'unit':
                 lines.append('unit ' + hexs(g.unit()))
             elif k == 'unc':
@@ -161,8 +183,8 @@ class C14(Prop):
                 lines.append('reopen ' + ('ro' if ro else 'rw'))
             else:
                 lines.append(k)
-            if k != 'count' and r.random() < 0.8:
-                lines.append('obs')
+            if k not in ('count', 'cmp', 'pstr') and r.random() < 0.8:
+                lines.append(r.choice(['obs', 'obs', 'obs:alt']))
         lines.append('reopen ' + r.choice(['ro', 'rw']))
         lines.append('obs')
         return Case(lines, tag)
@@ -209,6 +231,51 @@ class C14(Prop):
                       'def ' + hexs(g.string('4k')), 'unit ' + hexs(b' k Hz'), 'unc d:3ff8000000000000', 'reopen ro', 'obs',
                       'unit ' + hexs(b'V'), 'unc_none', 'def_none', 'obs', 'reopen rw', 'unit_none', 'obs']
             cases.append(Case(lines, 'attrs'))
+        # 3b. the Variant value class on its own: every construction route x every value type round trips through a property,
+        #     operator== / != (also on nix::Value), get<T>() / get(T&) with every requested type, operator<<, supports_type, swap
+        for route in VROUTES:
+            for t in TYPES:
+                vals = ([hexs(x) for x in LITERALS] + [hexs(g.string('long')), hexs(g.string('bytes'))]) if t == 'String' else \
+                       [g.value(t, 0.7) for _ in range(6)]
+                cases.append(Case(['new_vs:%s %d %s' % (route, len(vals), ' '.join(vals)), 'obs', 'obs:alt',
+                                   'set:%s 2 %s %s' % (route, vals[-1], vals[0]), 'obs:alt', 'reopen ro', 'obs',
+                                   'new_v:%s %s' % (route, vals[1]), 'obs:alt'], 'variant-routes'))
+        allv = lambda: g.value(rnd.choice(TYPES + ['none']), 0.6)
+        for i in range(40 * mult):
+            L = []
+            for _ in range(12):
+                k = rnd.choice(['veq', 'veq', 'vget', 'vgeto', 'vstr', 'vswap', 'vsup'])
+                route = rnd.choice(VROUTES)
+                if k == 'veq':
+                    a = allv()
+                    b = a if rnd.random() < 0.4 else (g.value(a.split(':')[0] and {'b': 'Bool', 'i32': 'Int32', 'u32': 'UInt32', 'i64': 'Int64',
+                                                      'u64': 'UInt64', 'd': 'Double', 's': 'String'}.get(a.split(':')[0], 'Bool'), 0.6)
+                                                      if rnd.random() < 0.6 else allv())
+                    L.append('veq:%s %s %s' % (route, a, b))
+                elif k in ('vget', 'vgeto'):
+                    L.append('%s:%s %s %s' % (k, route, allv(), rnd.choice(GET_TYPES)))
+                elif k == 'vstr':
+                    v = allv()
+                    while v.startswith('s:') and len(v) > 400:
+                        v = allv()
+                    L.append('vstr:%s %s' % (route, v))
+                elif k == 'vswap':
+                    L.append('vswap:%s %s %s' % (route, allv(), allv()))
+                else:
+                    L.append('vsup ' + rnd.choice(TYPES + UNHOLDABLE + UNSTORABLE))
+            cases.append(Case(L, 'variant-class'))
+        for t in TYPES + ['none']:           # every value type against every requested type, both getter families
+            v = g.value(t, 0.6)
+            cases.append(Case(['%s %s %s' % (k, v, T) for T in GET_TYPES for k in ('vget', 'vgeto')] + ['vstr ' + v, 'veq %s %s' % (v, v)],
+                              'variant-class'))
+        cases.append(Case(['veq d:7ff8000000000000 d:7ff8000000000000', 'veq d:8000000000000000 d:0000000000000000', 'veq none none',
+                           'veq i32:1 u32:1', 'veq i64:1 i32:1', 'veq b:1 i32:1', 'veq s: none', 'veq s: s:', 'veq %s %s' % (hexs(b'a'), hexs(b'a ')),
+                           'vstr i64:-9223372036854775808', 'vstr u64:18446744073709551615', 'vstr i32:0', 'vstr b:0', 'vstr b:1', 'vstr none', 'vstr s:',
+                           'vstr d:3ff0000000000000'] + ['vsup ' + x for x in TYPES + UNHOLDABLE + UNSTORABLE], 'variant-class'))
+        # Property::compare / operator<<
+        cases.append(Case(['cmp ' + hexs(b'q'), 'pstr', 'new_v i32:1', 'pstr'] + ['cmp ' + hexs(x) for x in
+                          [b'q', b'o', b'p', b'pa', b'P', b'a', b'~', b' p', b'p ', 'ä'.encode('utf-8'), b'\x7f', b'\x80', b'pp']] +
+                          ['obs', 'reopen ro', 'cmp ' + hexs(b'q'), 'cmp ' + hexs(b'p'), 'pstr', 'reopen rw', 'cmp ' + hexs(b'p'), 'obs'], 'compare'))
         # 4. random histories
         for i in range(1500 * mult):
             t = TYPES[i % 7]
@@ -251,6 +318,38 @@ class C14(Prop):
     def extra_checks(self, ctx):
         import os
         ctx['ev']['model_variant'] = os.environ.get('C14_MODEL', 'repaired')
+        # which public entry points the generated cases call, and how often (evidence only)
+        cases = self.generate(ctx['seed'], ctx['tier'], 1)
+        cmd, routes = {}, {}
+        for c in cases:
+            for l in c.lines:
+                head = l.split(' ', 1)[0]
+                base, _, rt = head.partition(':')
+                cmd[base] = cmd.get(base, 0) + 1
+                if base in ('set', 'new_v', 'new_vs', 'veq', 'vget', 'vgeto', 'vstr', 'vswap'):
+                    routes[rt or 'direct'] = routes.get(rt or 'direct', 0) + 1
+                if head == 'obs:alt':
+                    cmd['obs:alt'] = cmd.get('obs:alt', 0) + 1
+        ep = {'createProperty(name, DataType)': 'new_t', 'createProperty(name, Variant)': 'new_v', 'createProperty(name, vector<Variant>)': 'new_vs',
+              'Property::values(vector)': 'set', 'deleteValues': 'clear', 'values(none)': 'clear_none', 'unit(string)': 'unit', 'unit(none)': 'unit_none',
+              'uncertainty(double)': 'unc', 'uncertainty(none)': 'unc_none', 'definition(string)': 'def', 'definition(none)': 'def_none',
+              'dataType/valueCount/values/unit/uncertainty/definition getters (get<T>())': 'obs',
+              'the same read through Variant::get(T&) / get<const char*>': 'obs:alt', 'valueCount': 'count',
+              'Property::compare': 'cmp', 'operator<<(Property)': 'pstr',
+              'Variant operator== / != (and nix::Value == / !=)': 'veq', 'Variant::get<T>() incl. get<const char*>, get<none_t>': 'vget',
+              'Variant::get(T&) incl. get(none_t&)': 'vgeto', 'operator<<(Variant) / operator<<(Value)': 'vstr',
+              'Variant::supports_type / Value::supports_type': 'vsup', 'Variant::swap / nix::swap(Variant&, Variant&)': 'vswap'}
+        ctx['ev']['entry_points'] = {k: cmd.get(v, 0) for k, v in ep.items()}
+        ctx['ev']['variant_construction_routes'] = {
+            'legend': {'direct': 'Variant(const T&)', 'cstr': 'Variant(const char*)', 'charptr': 'Variant(char*)',
+                       'literal': 'Variant(const char (&)[N])', 'setlive': 'Variant() + set(T) / set(const std::string&)',
+                       'setc': 'Variant() + set(const char*) / set(const char*, len)',
+                       'retype': 'set() on a live Variant: String->String (realloc), String->other, other->String, none',
+                       'copy': 'copy constructor', 'assign': 'operator=', 'move': 'move constructor + move assignment',
+                       'swap': 'Variant::swap + nix::swap', 'value': 'nix::Value: constructors, copy, move, assignment, swap, set(none), get<T>'},
+            'requests': routes}
+        ctx['ev']['entry_points_not_covered'] = ['decimal rendering of a double by operator<< (printed, not compared)',
+                                                 'Property::compare of two properties with EMPTY names (cannot be created through the API)']
         return []
 
     # ---- reporting -------------------------------------------------------------------------------
